@@ -87,7 +87,7 @@ def gen_chal(rng):
 
 
 def gen_ops(rng, later):
-    n = rng.choice([1, 2, 3, 5, 8, 8, 8, 9])
+    n = rng.choice([1, 2, 3, 5, 8, 8, 8, 9, 9, 9])
     ops = []
     for _ in range(n):
         op = {'k': 'ok', 'd': gen_chal(rng)}
@@ -97,7 +97,7 @@ def gen_ops(rng, later):
     # faults
     r = rng.random()
     if r < 0.55:
-        k = rng.randrange(len(ops))
+        k = max(rng.randrange(len(ops)), rng.randrange(len(ops)), rng.randrange(len(ops)))
         f = rng.random()
         if f < 0.4:
             ops[k] = {'k': 'err', 'code': rng.choice(ERR_CODES)}
@@ -151,6 +151,23 @@ def generate(rng, tier, n):
                     else:
                         out.append(make_case(rng, m, cond=cond, provider=prov))
     while len(out) < n:
+        r = rng.random()
+        if r < 0.7:
+            # a configuration in which one chosen method is usable, plus random extras
+            target = rng.choice(['SAFECOOKIE', 'SAFECOOKIE', 'COOKIE', 'HASHEDPASSWORD', 'NULL'])
+            s = [target] + [m for m in KNOWN if m != target and rng.random() < 0.4]
+            if rng.random() < 0.15:
+                s.append(rng.choice(UNKNOWN))
+            rng.shuffle(s)
+            if target in ('SAFECOOKIE', 'COOKIE'):
+                out.append(make_case(rng, s, cond='data32' if rng.random() < 0.9 else None))
+            elif target == 'HASHEDPASSWORD':
+                prov = rng.choice(['value', 'value', 'later', 'coro', 'corolater', None])
+                cond = rng.choice(['absent', 'dir', None])
+                out.append(make_case(rng, s, cond=cond, provider=prov))
+            else:
+                out.append(make_case(rng, s, path='gen' if rng.random() < 0.5 else None))
+            continue
         s = [m for m in KNOWN if rng.random() < 0.5]
         if rng.random() < 0.2:
             s.append(rng.choice(UNKNOWN))
